@@ -82,7 +82,34 @@ def _cross_file_checks(ctx: Context, pl: Plumbing) -> list[str]:
     return out
 
 
+def _per_file_replacement(ctx: Context, pl: Plumbing) -> None:
+    """Write-to-temporary-then-rename *per file*, without a commit protocol over the whole folder, turns a loud failure into a silent hybrid: when writing
+    one file fails, its previous version stays in place next to the files already replaced, and load - which cross-checks nothing - accepts the mixture
+    (a truncated file, by contrast, made the restore fail)."""
+    prog = ctx.prog
+    save = pl.save
+    hits = []
+    for w in [x for x in ast.walk(save.node) if isinstance(x, ast.With)]:
+        for it in w.items:
+            c = it.context_expr
+            if isinstance(c, ast.Call):
+                for t in prog.resolve_call(save, c):
+                    if isinstance(t, FuncInfo) and any((dotted(x.func) or "") in ("os.replace", "os.rename", "shutil.move") or (isinstance(x.func, ast.Attribute) and x.func.attr in ("replace", "rename"))
+                                                       for x in ast.walk(t.node) if isinstance(x, ast.Call)):
+                        hits.append((c, t))
+    direct = [x for x in calls_in(save.node) if (dotted(x.func) or "") in ("os.replace", "os.rename", "shutil.move")]
+    n_files = len([x for x in ast.walk(save.node) if isinstance(x, ast.With)])
+    if hits and len(hits) >= 2 and not direct:
+        c, t = hits[0]
+        ctx.fail("R1.per-file-replacement", "save_calibrator_state:per-file-replacement", f"{len(hits)} checkpoint files are each written through `{t.name}` (temporary file + rename) while the save as a whole "
+                 "has no commit protocol: if writing one of them fails, its OLD version stays in place beside the NEW versions of the files written before it, and load accepts the mixture silently "
+                 "(before, the half-written file made the restore fail)", save, c)
+    ctx.notes["per_file_replacement_helpers"] = len(hits)
+    _ = n_files
+
+
 def r1_write_plan(ctx: Context, pl: Plumbing) -> None:
+    _per_file_replacement(ctx, pl)
     effects = pl.save_effects()
     ctx.floor("R1", "file effects of the JSON/CSV/HDF5 save", len(effects), 5)
     plan = []
@@ -261,6 +288,20 @@ def r2_sqlite(ctx: Context) -> None:
                     bad = p
         ctx.check(bad is None and bool(cls_nodes), "R2.close", f"sqlite3.{what}:close-on-every-exit", f"the connection is closed on every exit of {what}",
                   f"{what} can return / raise with the connection still open", fn, fn.node, path_text(fn, bad))
+    # the reader must be able to finish the writer's recovery: after a process death in mid-transaction the previous row is only recovered when the next
+    # connection rolls the hot journal back, which a read-only / immutable connection is not allowed to do (SQLITE_READONLY_ROLLBACK: every load then fails)
+    from ..poly import single_assignment_env
+    lenv = single_assignment_env(load.node)
+    for c_ in [x for x in calls_in(load.node) if (dotted(x.func) or "") == "sqlite3.connect"]:
+        texts = [src(a) for a in [*c_.args, *[k.value for k in c_.keywords]]]
+        for a in [*c_.args, *[k.value for k in c_.keywords]]:
+            for nm in [x.id for x in ast.walk(a) if isinstance(x, ast.Name) and x.id in lenv]:
+                texts.append(src(lenv[nm]))
+        blob = " ".join(texts)
+        ro = re.search(r"mode=ro\b|immutable=1|nolock=1", blob)
+        ctx.check(ro is None, "R2.reader-can-recover", "sqlite3.load:connect-mode", "load opens the database read-write, so a hot journal left by a killed save is rolled back on open",
+                  f"`{' '.join(src(c_).split())[:120]}` opens the database `{ro.group(0) if ro else ''}`: a journal left by a save that died mid-transaction cannot be rolled back by this connection, "
+                  "so the previous checkpoint - still recoverable on disk - is no longer loadable", load, c_)
     # exceptions are re-raised by the handler
     _handlers_reraise(ctx, save, "R2.rollback", "sqlite3.save")
 
